@@ -12,10 +12,12 @@ import scipy.sparse as sp
 from harness import vlib
 from harness.vlib import Nat, cq, Raw
 
+USES_TRANSLATOR = True
 RULE = ('case = (c, A, b, K[, dont_sep]) with K a sequence over {0,+,S(2..4),e}; exhaustive over all cone sequences of '
         'length<=3 (quick) / <=4 (thorough) plus random ones up to length 7; non-trivial = K has two adjacent cones of '
         'equal type or a separated nonlinear cone; distinct by input hash')
 TRUSTED = ['correspondence harness harness/props/c10.py (dense canonicalisation of scipy.sparse outputs)',
+           'translator harness/translator/mosek_tab.py (Gen/GenMosek.v: MOSEK status tables, primal/dual decision, dispatch) — the only tie for mosek.py parse functions',
            'MOSEK itself is absent: meaning of appendcone/putconboundlist/gety is trusted; only the data handed to it is modelled',
            'strong duality of dualize_problem is not proved (weak duality is)']
 ASSUMPTIONS = ['Model/SolverForms.v is a hand-written polymorphic mirror of the Python (instantiated at Q for correspondence, '
@@ -458,6 +460,11 @@ def search(ctx):
     why = probe_adjacent_soc()
     if why:
         return {'suite': 'adjacent_soc_solve', 'property_failure': why}
+    # the status tables and the primal/dual decision of the MOSEK interface (scripted task; shared with C09)
+    from harness.props import c09
+    fails, _ = c09.mosek_stream(ctx)
+    if fails:
+        return {'suite': 'mosek_scripted_task', 'mosek_case': fails[0].split(':')[0], 'property_failure': fails[0]}
     return None
 
 
